@@ -46,23 +46,29 @@ const (
 
 // World owns everything shared between nodes.
 type World struct {
-	mu       sync.Mutex
-	Dir      string
-	Chains   map[string]*Chain
-	LN       *LNState
-	Nodes    map[string]*Node
-	Trace    []TraceEntry
-	Sent     []*SentMsg
-	CrashAt  int // trace index at which the calling process crashes; -1 = never
+	mu      sync.Mutex
+	Dir     string
+	Chains  map[string]*Chain
+	LN      *LNState
+	Nodes   map[string]*Node
+	Trace   []TraceEntry
+	Sent    []*SentMsg
+	CrashAt int // trace index at which the calling process crashes; -1 = never
 	// CrashOn crashes the calling process at the next boundary "call:phase" (optionally only on CrashOnNode).
 	CrashOn     string
 	CrashOnNode string
-	crashed  chan *Proc
-	released chan struct{}
-	relOnce  sync.Once
-	nonce    uint64
-	Notes    []string
-	Panics   []string // panics raised by the code under test inside a step
+	// ParkOn parks the calling goroutine at the next boundary "call:phase" (optionally only on ParkOnNode);
+	// Parked is closed when that happens, Release lets it go on.
+	ParkOn      string
+	ParkOnNode  string
+	Parked      chan struct{}
+	parkRelease chan struct{}
+	crashed     chan *Proc
+	released    chan struct{}
+	relOnce     sync.Once
+	nonce       uint64
+	Notes       []string
+	Panics      []string // panics raised by the code under test inside a step
 	// Hangs: a step (one call into the node) that did not return within StepWatchdog although no fake
 	// was holding it - the code under test blocks itself. Later steps of a hung world are skipped.
 	Hangs     []string
@@ -150,6 +156,20 @@ func (p *Proc) point(call, phase, info string) bool {
 	}
 	idx := len(w.Trace)
 	w.Trace = append(w.Trace, TraceEntry{Idx: idx, Node: p.N.Name, Epoch: p.Epoch, Call: call, Phase: phase, Info: info})
+	if w.ParkOn != "" && w.ParkOn == call+":"+phase && (w.ParkOnNode == "" || w.ParkOnNode == p.N.Name) {
+		// a scheduling point chosen by the test: the calling goroutine waits here (holding whatever
+		// locks the code under test holds) until the test releases it
+		w.ParkOn = ""
+		rel := make(chan struct{})
+		w.parkRelease = rel
+		parked := w.Parked
+		w.mu.Unlock()
+		if parked != nil {
+			close(parked)
+		}
+		<-rel
+		w.mu.Lock()
+	}
 	if w.CrashAt == idx || (w.CrashOn != "" && w.CrashOn == call+":"+phase && (w.CrashOnNode == "" || w.CrashOnNode == p.N.Name)) {
 		p.dead = true
 		w.CrashAt = -1
@@ -247,6 +267,17 @@ func (w *World) Step(n *Node, fn func()) (crashed bool) {
 			return true
 		case <-time.After(10 * time.Second):
 		}
+	}
+}
+
+// Release lets a goroutine parked through ParkOn continue.
+func (w *World) Release() {
+	w.mu.Lock()
+	rel := w.parkRelease
+	w.parkRelease = nil
+	w.mu.Unlock()
+	if rel != nil {
+		close(rel)
 	}
 }
 
